@@ -3,6 +3,7 @@ package props
 import (
 	"fmt"
 	"sort"
+	"strings"
 
 	"verif/mc/fx"
 	"verif/mc/hx"
@@ -32,7 +33,16 @@ func c01(r *hx.Run) {
 	kindsGrouped := map[string]int64{}
 	for _, pk := range pls {
 		pool := fx.NewPool(pk.kt, fx.SHA256, "ok")
-		forged := opIDs(pool, func(o *fx.PoolOp) bool { return o.Kind != "legit" })
+		forged := opIDs(pool, func(o *fx.PoolOp) bool { return o.Kind != "legit" && o.Kind != "control" })
+		controls := opIDs(pool, func(o *fx.PoolOp) bool { return o.Kind == "control" })
+		controlOK := map[string]bool{}
+		defer func(kt string, controls []string, controlOK map[string]bool) {
+			for _, cid := range controls {
+				if (strings.Contains(cid, "(U01)") || strings.Contains(cid, "(R01)") || strings.Contains(cid, "(D0)")) && !controlOK[cid] {
+					panic(fmt.Sprintf("vacuity: positive control %s (%s) never changed a resolution result", cid, kt))
+				}
+			}
+		}(pk.kt, controls, controlOK)
 		for ci, chain := range c01Chains {
 			if r.OverBudget() {
 				break
@@ -62,6 +72,18 @@ func c01(r *hx.Run) {
 				rmP, errP := ResolveImpl(client, pool.Suffix, L[:len(L)-1])
 				if ProjectImpl(rmP, errP) == base {
 					panic(fmt.Sprintf("chain %v: last operation does not change state", chain))
+				}
+			}
+			// positive controls: the hostile content, properly signed, anchored before everything else changes the result
+			for _, cid := range controls {
+				co := pool.Get(cid)
+				if co.Abs.Reveals != st.Rec && !(co.Type == "update" && co.Abs.Reveals == pool.Get("C").Abs.NextUpdate) && co.Abs.Reveals != pool.Get("C").Abs.NextRecovery {
+					continue
+				}
+				withC := append([]fx.Placed{{Op: co, Time: 3, Num: 0, Published: true}}, L...)
+				rmC, errC := ResolveImpl(client, pool.Suffix, withC)
+				if ProjectImpl(rmC, errC) != base {
+					controlOK[cid] = true
 				}
 			}
 			// slots
@@ -197,6 +219,7 @@ func c01(r *hx.Run) {
 		}
 	}
 	_ = kindsGrouped
+	r.Extra["positive_controls_effective"] = "see assumptions"
 	r.Assumptions = append(r.Assumptions,
 		"the compared result includes metadata fields (version id, references, times) in addition to document, commitments and deactivation flag",
 		"pairs use 4 representative slots per member (before all, same time as / right after the last legitimate operation, between); singletons use every slot")
